@@ -23,7 +23,9 @@ type sysDef struct {
 	Depth    int
 	Workers  int
 	Exec     func(worker int, hist []string, mode string) *execResult
-	Deadline time.Time // zero = none; reaching it stops before the next level (exhaustive:false)
+	Deadline time.Time // zero = none; reaching it stops the exploration (exhaustive:false)
+	MergeObs  bool // merge oracle: re-expand, per key, the first alternative history that ends in the observer letter
+	MergeAlts int  // merge oracle: and this many other alternative histories per key
 }
 
 type poolCase struct {
@@ -51,7 +53,7 @@ type task struct {
 }
 
 type bfsStats struct {
-	States, Transitions, Merges, MergeChecks, MergeMismatch, Drains, Executions int64
+	States, Transitions, Merges, MergeChecks, MergeMismatch, Drains, Executions, PartialTransitions int64
 	Reaps, Blocks                                                                 int64
 	PerDepth                                                                      []int
 	DepthDone                                                                     int
@@ -167,8 +169,13 @@ func explore(sys sysDef, rep *reporter) bfsStats {
 			tasks = append(tasks, pendingMerge...)
 		}
 		pendingMerge = nil
+		var skipped int64
 		core.Par(len(tasks), func(i int) {
 			t := &tasks[i]
+			if !sys.Deadline.IsZero() && time.Now().After(sys.Deadline) {
+				atomic.AddInt64(&skipped, 1)
+				return
+			}
 			if t.letter < 0 {
 				t.res = exec(t.hist, "drain")
 				return
@@ -177,6 +184,26 @@ func explore(sys sysDef, rep *reporter) bfsStats {
 			t.res = exec(h, "step")
 		})
 		var next []*stateRec
+		if skipped > 0 {
+			// time cap reached inside this level: verdicts of the executed cases
+			// still count, the level does not
+			st.Capped = true
+			for i := range tasks {
+				t := &tasks[i]
+				if t.res == nil {
+					continue
+				}
+				h, mode := t.hist, "drain"
+				if t.letter >= 0 {
+					h, mode = append(append([]string{}, t.hist...), sys.Alphabet[t.letter]), "step"
+					st.PartialTransitions++
+				}
+				for _, f := range t.res.Findings {
+					rep.report(sys.Pool, sys.Cfg, mode, h, f)
+				}
+			}
+			break
+		}
 		// pass 1: representatives' observations
 		for i := range tasks {
 			t := &tasks[i]
@@ -221,7 +248,7 @@ func explore(sys sysDef, rep *reporter) bfsStats {
 				// ends in an observer letter (hidden sort cache), plus one other.
 				if d+1 < sys.Depth && len(s.hist) <= d+1 {
 					isO := sys.Alphabet[t.letter] == "O"
-					if (isO && !s.altsO) || (!isO && s.alts < 1) {
+					if (isO && !s.altsO && sys.MergeObs) || (!isO && s.alts < sys.MergeAlts) {
 						if isO {
 							s.altsO = true
 						} else {
